@@ -193,7 +193,7 @@ CLAIMED["C12"] = {
             "Not decided: stationarity of the "
             "returned point beyond these necessary conditions, numeric range of probabilities. "
             "The chain-rule check reads through same-crate helpers (a clamp shared 'for consistency' between link_derivative and inverse_derivative is a clamp in inverse_derivative only); every non-error path of the two logistic fits goes through the solver on the model's own problem. "
-            "The gradient tolerance handed to L-BFGS is the configured one, not multiplied or divided by a size of the data; the running maximum behind the softmax / log-sum-exp shift starts from -inf or an element, not from a finite constant; a builder method does not write another setting conditionally (`get_or_insert` of the link inside `power`). A branch taken under `y == 0` in the GLM distribution code yields what the general branch tends to at y = 0 (terms with a factor y vanish; decided on the rational normal form of both branches); raw memory-order buffers are followed through `Cow::Borrowed` / `Some` / `Either` wrappers and the values of match arms.",
+            "The gradient tolerance handed to L-BFGS is the configured one, not multiplied or divided by a size of the data; the running maximum behind the softmax / log-sum-exp shift starts from -inf or an element, not from a finite constant; a builder method does not write another setting conditionally (`get_or_insert` of the link inside `power`). A branch taken under `y == 0` in the GLM distribution code yields what the general branch tends to at y = 0 (terms with a factor y vanish; decided on the rational normal form of both branches); raw memory-order buffers are followed through `Cow::Borrowed` / `Some` / `Either` wrappers and the values of match arms. In every arm of TweedieDistribution::unit_deviance (Normal, Poisson, Gamma, the two general arms) the symbolic derivative with respect to the mean - rational normal form with ln u and mu^p as atoms, mu^(a + b p) = mu^a (mu^p)^b, chain rule - is -2 (y - mu) / unit_variance(mu), and unit_deviance_derivative computes exactly that: cost and gradient of the GLM are one function (the factor-2 defect repaired in ee80fac is now a rule: its revert is a catalogue mutant).",
     "design_ref": "DESIGN.md section 4, C12",
     "note": "Trusted: rustc resolution/typeck, the fact dump; soft-max is monotone per row.",
     "technique": _T + ": dominance of validation over the optimiser call, shifted log-sum-exp chain rule, common-producer check for decision and probabilities, sibling agreement of dispatcher arms, per-path influence (data-dependence) analysis",
